@@ -65,15 +65,16 @@ class Run:
     def setup_model(self, pr):
         use_gen = "error" not in self.info
         with Lock("coq"):
-            rc, out, err = coq_make(["Model/LexerDecode.vo"] + (["Model/LexerGen.vo"] if use_gen else []), timeout=900)
+            rc, out, err = coq_make(["Model/LexerDecode.vo", "Model/LexerInterpExec.vo"] + (["Model/LexerGen.vo"] if use_gen else []), timeout=900)
             if rc != 0 and use_gen:
                 use_gen = False
-                rc, out, err = coq_make(["Model/LexerDecode.vo"], timeout=900)
+                rc, out, err = coq_make(["Model/LexerDecode.vo", "Model/LexerInterpExec.vo"], timeout=900)
         if rc != 0:
             self.ck.coverage["model_build_error"] = (out + err)[-800:]
             return
         self.header = HEADER_BASE % (" Model.LexerGen" if use_gen else "")
         self.header_arr = HEADER_ARR % (" Model.LexerGen" if use_gen else "")
+        self.header_interp = HEADER_BASE % (" Model.LexerInterp Model.LexerInterpExec" + (" Model.LexerGen" if use_gen else ""))
         self.tables = "gen_tables" if use_gen else "snapshot_tables"
         self.ck.coverage["model_tables"] = self.tables + ("" if use_gen else " (FALLBACK: translator failed closed; hand snapshot used only to drive the search)")
         self.model_ok = True
@@ -171,6 +172,44 @@ class Run:
         self.ck.coverage["transport_selftest"] = {"decoded_cases": len(back), "token_kinds_round_tripped": sorted(kinds), "canaries": len(want), "ok": ok,
                                                   "canaries_reported": None if got is None else len(got)}
         self.ck.count("transport-selftest", "corpus", nontrivial=True)
+
+    # ---------------------------------------------------------------- inner structure of s-/f-strings
+    def interp_stream(self, stream, srcs):
+        """Model/LexerInterp.v (through Model/LexerInterpExec.run_interp: lexer model, then the inner lexer on the token's content)
+        vs interpolation::parse as observed through prql_to_pl: item kinds, texts, ident paths, path spans, formats, accept/reject;
+        plus the direct oracle on the model's extents (they tile the content)"""
+        ck = self.ck
+        if not self.model_ok:
+            return
+        srcs = [s for s in srcs if all(L.in_domain(c) for c in s)]
+        ans = harness("pl", [{"src": s} for s in srcs])
+        try:
+            vals = coq_eval(self.header_interp, ["run_interp %s %s" % (self.tables, L.codes(s)) for s in srcs])
+        except RuntimeError as ex:
+            self.model_failed("interp model evaluation failed: %s" % str(ex)[-600:])
+            return
+        for s, a, v in zip(srcs, ans, vals):
+            if v is None:
+                self.model_failed("interp model: no result for %r" % s)
+                return
+            m = L.model_interp(v)
+            im = L.impl_interp(a)
+            if m is None:
+                ck.count(stream, L.key(s), nontrivial=False)
+                ck.stat(stream, "not-a-single-interpolation-token")
+                continue
+            ck.count(stream, L.key(s), nontrivial=True)
+            if m[0] == "err":
+                ck.stat(stream, "rejected")
+                if im[0] != "err":
+                    self.report("interp-corr", "interpolation model rejects the content of %r, the parser accepts it: %r" % (s, im), {"src": s, "clause": "interp-correspondence", "model": m, "implementation": im})
+                continue
+            ck.stat(stream, "accepted")
+            ck.stat(stream, "items", len(m[2]))
+            for it in m[2]:
+                ck.stat(stream, "item:" + it[0] + (":format" if it[0] == "IExpr" and it[4] is not None else ""))
+            if im[0] != "ok" or (im[1], im[2]) != (m[1], m[2]):
+                self.report("interp-corr", "interpolation model and parser differ on %r: model %r, parser %r" % (s, m[1:3], im), {"src": s, "clause": "interp-correspondence", "model": m, "implementation": im})
 
     # ---------------------------------------------------------------- one chunk of strings
     def process(self, stream, strs):
@@ -366,6 +405,8 @@ def run():
     R.stream("word-contexts", [src for _, src in wc])
     ck.coverage["word_contexts"] = {"words": words, "left_contexts": {k: len(v) for k, v in L.LEFT_CONTEXTS.items()},
                                     "right_contexts": len(L.RIGHT_TERMINATORS) + len(L.RIGHT_OTHERS), "full_product": ck.thorough, "sources": len(wc)}
+    # (a") the inner lexer of s-/f-strings: all contents of length <= 4 (thorough: 5) over its 9-character alphabet, corpus, seeded random
+    R.interp_stream("interp-inner", L.interp_sources(ck.rng, ck.n(4, 5), ck.n(2500, 20000)))
     # (b) exhaustive over the lexical alphabet: all strings of length <= 3; in the thorough tier also all of length 4
     #     when the measured rate allows it within ~15 minutes (otherwise a seeded sample of that length, recorded)
     import itertools
